@@ -54,6 +54,10 @@ pub struct Session {
     /// the configured user dictionary is a relative symbolic link to a file elsewhere (dotfiles)
     #[serde(default)]
     pub symlinked_user_dict: bool,
+    /// what the user dictionary holds when the server starts: 0-3 nothing special, 4 a Latin-1
+    /// byte, 5 a UTF-16 byte-order mark, 6 a multi-byte character cut in half, 7 CRLF line ends
+    #[serde(default)]
+    pub user_dict_bytes: u8,
 }
 
 const DOCS: [(&str, &str); 4] = [("a.md", "markdown"), ("b.txt", "plaintext"), ("c.rs", "rust"), ("d.html", "html")];
@@ -269,6 +273,23 @@ fn run_session(c: &Session, ctx: &mut CaseCtx) -> Result<Result<(), String>, Lsp
         std::fs::create_dir_all(sb.user_dict().parent().unwrap()).map_err(io)?;
         std::os::unix::fs::symlink("../dotfiles/harper/dictionary.txt", sb.user_dict()).map_err(io)?;
         ctx.class("user_dictionary_is_a_relative_symbolic_link");
+    }
+    {
+        let content: Option<&[u8]> = match c.user_dict_bytes % 8 {
+            4 => Some(b"caf\xe9\nquuxify\n"),
+            5 => Some(b"\xff\xfeq\x00u\x00\n\x00"),
+            6 => Some(b"quuxify\nna\xc3"),
+            7 => Some(b"quuxify\r\nfrobnix\r\n"),
+            _ => None,
+        };
+        if let Some(bytes) = content {
+            let target = if c.symlinked_user_dict { link_target.clone() } else { sb.user_dict() };
+            if let Some(d) = target.parent() {
+                let _ = std::fs::create_dir_all(d);
+            }
+            std::fs::write(&target, bytes).map_err(|e| LspError::Protocol(e.to_string()))?;
+            ctx.class_if(c.user_dict_bytes % 8 != 7, "user_dictionary_is_not_valid_utf8");
+        }
     }
     // (word, user dictionary?, generation of the paths in force when it was added)
     let mut added: Vec<(String, bool, usize)> = vec![];
@@ -920,7 +941,7 @@ fn dependency_scan(run: &mut Run) {
 }
 
 pub fn run(run: &mut Run) {
-    run.rule = "(a) generated harper-ls sessions (4 documents incl. URLs, e-mail addresses and host names; open/change/save/close/delete, AddToUserDict, AddToFileDict, IgnoreLint, RecordLint, codeAction, didChangeConfiguration, shutdown; never HarperOpen) each run under strace -f: no socket/connect/send*/bind/listen, no resolver or TLS files, no exec of another program, and every create/write/rename/unlink/mkdir targets the configured dictionary or statistics paths; documents with odd URIs and documents whose absolute path has 150-400 bytes included; in 40% of the sessions the user dictionary is a relative symbolic link (only the link's target may be written, nothing relative to the working directory); the client may start reporting other dictionary paths without a notification, and every added word must be found in the dictionary configured at that time and nowhere else; one TCP-mode session (only the 127.0.0.1:4000 listener and its accepted connection) and one TCP-mode start while port 4000 is in use (no listener anywhere else). (b) a worker process pushing generated documents through all front-ends, the harper.js API and statistics export/import under strace: no network syscall and nothing opened for writing. Non-trivial session = >=1 dictionary save, >=1 command and the statistics write at shutdown. Auxiliary (static): cargo metadata closure of harper-ls/harper-cli/harper-wasm scanned against a deny-list of network client crates.".into();
+    run.rule = "(a) generated harper-ls sessions (4 documents incl. URLs, e-mail addresses and host names; open/change/save/close/delete, AddToUserDict, AddToFileDict, IgnoreLint, RecordLint, codeAction, didChangeConfiguration, shutdown; never HarperOpen) each run under strace -f: no socket/connect/send*/bind/listen, no resolver or TLS files, no exec of another program, and every create/write/rename/unlink/mkdir targets the configured dictionary or statistics paths; documents with odd URIs and documents whose absolute path has 150-400 bytes included; in 3 of 8 sessions the user dictionary starts out with bytes that are not UTF-8 (Latin-1, UTF-16, a truncated character); in 40% of the sessions the user dictionary is a relative symbolic link (only the link's target may be written, nothing relative to the working directory); the client may start reporting other dictionary paths without a notification, and every added word must be found in the dictionary configured at that time and nowhere else; one TCP-mode session (only the 127.0.0.1:4000 listener and its accepted connection) and one TCP-mode start while port 4000 is in use (no listener anywhere else). (b) a worker process pushing generated documents through all front-ends, the harper.js API and statistics export/import under strace: no network syscall and nothing opened for writing. Non-trivial session = >=1 dictionary save, >=1 command and the statistics write at shutdown. Auxiliary (static): cargo metadata closure of harper-ls/harper-cli/harper-wasm scanned against a deny-list of network client crates.".into();
     run.threads = run.threads.min(6);
     run.max_shrink_iters = 40;
     let n = run.n(16, 200);
@@ -928,11 +949,11 @@ pub fn run(run: &mut Run) {
         "language_server_sessions",
         n,
         || {
-            (proptest::collection::vec(step(), 4..16), prop::bool::weighted(0.4))
-                .prop_map(|(mut steps, symlinked_user_dict)| {
+            (proptest::collection::vec(step(), 4..16), prop::bool::weighted(0.4), 0u8..8)
+                .prop_map(|(mut steps, symlinked_user_dict, user_dict_bytes)| {
                     // every session opens something first so that commands have a target
                     steps.insert(0, Step::Open { doc: 1, text: 0 });
-                    Session { steps, tcp: false, symlinked_user_dict }
+                    Session { steps, tcp: false, symlinked_user_dict, user_dict_bytes }
                 })
                 .boxed()
         },
@@ -945,6 +966,7 @@ pub fn run(run: &mut Run) {
     run.require_class("language_server_sessions", "document_path_of_256_bytes_or_more", (n / 16) as u64);
     run.require_class("language_server_sessions", "user_dictionary_setting_names_a_directory", (n / 16) as u64);
     run.require_class("language_server_sessions", "user_dictionary_is_a_relative_symbolic_link", (n / 16) as u64);
+    run.require_class("language_server_sessions", "user_dictionary_is_not_valid_utf8", (n / 16) as u64);
     run.require_class("language_server_sessions", "dictionary_paths_changed_without_notification", (n / 16) as u64);
     run.require_class("language_server_sessions", "words_added_after_the_server_pulled_the_new_paths", (n / 16) as u64);
     run_library_worker(run);
